@@ -18,6 +18,16 @@ Tie to the code on every run:
                      back with harness/rtfread.py and compared with the reading of `render (spec t)` (flag on) or of
                      the raw text (flag off); the flag expected at a position is the documented meaning of the
                      user's value, the model's flag is `flagAt` on the constructed component's value.
+  literal-like texts a second document family whose texts look like a literal of another kind (ints, floats, exponents,
+                     digit-group underscores, radix forms, inf/nan words, booleans / missing-value words, complex,
+                     non-ASCII digits, near misses of the number grammar) x every decoration (none, `_`/`^` appended or
+                     between digits, leading / trailing / inner blanks and newlines, `>=`/`<=`, a command, a page keyword):
+                     the texts carry NO tag (the whole text is the literal), positions are identified by their ordinal
+                     place in the one-page output; the same text stands in every position kind — title, subline, page
+                     header/footer, column header cell, page_by group heading, body cell, footnote and source as table
+                     row and as paragraph — with text_convert default / scalar / per line / per column / matrix, and
+                     every position whose flag is on must read as the one-pass reading (hence the same everywhere).
+                     The same texts run through the unit level (labels `literal`, `literal-off`).
 
 Known deviations (reported once as KNOWN-FINDING while listed in known_findings.json, VIOLATION otherwise):
   C11-D15-blank-after-comparison   `a>=b` -> `a≥ b`
@@ -38,8 +48,13 @@ from ..common import sub_rng
 RULE = ("unit: (text, flag) pairs — every command of the symbol table x context templates (start/middle/end, adjacent "
         "commands, followed by letters/digits/braces/punctuation/specials), braced commands and their variations, "
         "unknown commands incl. near misses, all special sequences alone/paired/partial, random plain texts, random "
-        "token soups; docs: one-page tables with a tagged convertible text in every component kind under default / "
-        "scalar / per-line / per-column / matrix text_convert. non-trivial = the specification produces at least one "
+        "token soups, literal-like texts (ints, floats, exponents, digit-group underscores, radix forms, inf/nan, "
+        "booleans, complex, non-ASCII digits, near misses) x decorations (each conversion token, blanks and newlines "
+        "around/inside); docs: one-page tables with a tagged convertible text in every component kind under default / "
+        "scalar / per-line / per-column / matrix text_convert; untagged one-page tables with a literal-like text "
+        "(every family x decoration pair) in every position kind incl. page_by group headings and footnote/source as "
+        "table row and as paragraph, positions identified by ordinal place, the same text in all positions or one "
+        "draw per position. non-trivial = the specification produces at least one "
         "non-plain event (unit) or at least one position whose flag differs from the component default (doc); "
         "distinct by text (unit) or by (component flags, texts) (doc)")
 TRUSTED = [
@@ -65,7 +80,12 @@ MANIFEST = dict(
     note="The escaper is excluded (C10). The full statement is false on the unchanged tree: D15 (`a>=b` → `a≥ b`, pinned "
          "by tests/test_divider_filtering.py) and two interaction classes (literal token inside a command's brace "
          "group; `\\pagefield` directly after a command). Proved: agreement on all regular texts; `regular` is "
-         "sufficient, not necessary (an unknown command directly followed by `\\pagefield` agrees by coincidence).",
+         "sufficient, not necessary (an unknown command directly followed by `\\pagefield` agrees by coincidence). "
+         "Every backslash-free text is regular (C11_backslash_free_regular), so texts that look like numbers or other "
+         "literals are covered by the theorems; the flag route does not depend on the text or the position kind "
+         "(C11_position_independent). The subline_by heading is written outside the TextContent pipeline (never "
+         "converted, no text_convert of its own) and is not a position of this check; page_by headings are (flag of "
+         "the body at the page_by column).",
     technique="Lean 4 proof (multi-pass = one-pass by induction, table facts by decide +kernel) + differential "
               "correspondence model/implementation + Lean-defined oracle on implementation output",
     design="7/C11",
@@ -169,6 +189,82 @@ PLAIN_ALPHABETS = [
     "中文日本語한국어АБВГДабвгд",
     "\t\r\x0b\x0c",
 ]
+
+
+# ---- texts that look like a literal of some other kind (a number, a boolean, a missing-value word …) ----------------
+# The property quantifies over texts, not over "texts that look like text": a whole text that some parser would accept
+# as a number is still a text whose tokens are converted.  Families x decorations are enumerated systematically.
+LITERAL_FAMILIES = {
+    "int": ["0", "7", "12", "-3", "+7", "007", "1000000", "42"],
+    "float": ["3.5", ".5", "5.", "-0.5", "+2.50", "0.001", "12.0"],
+    "exp": ["1e3", "1E-3", "2.5e+5", "1e10", "-4E2", "6.02e23"],
+    "grouped": ["1_000", "101_2", "1_0.5", "1e1_0", "7_8", "1_2_3", "0_0", "1_000.000_1", "-1_0", "1_0e-0_5"],
+    "radix": ["0x1F", "0b101", "0o17", "0x1_f", "0X_FF", "0b1_0", "1f", "0xDEAD_BEEF"],
+    "word": ["inf", "-inf", "+Inf", "nan", "NaN", "Infinity", "-infinity", "INF", "+nan"],
+    "bool": ["True", "False", "true", "false", "None", "null", "NA", "NULL", "NaT", "yes", "no", "T", "F"],
+    "complex": ["1j", "2+3j", "-1.5J", "1e2j", "(1+2j)"],
+    "uni-digit": ["١٢", "１２", "१२", "１.５", "١_٢", "௧௨"],
+    "near": ["1,000", "12%", "1/2", "2020-01-31", "12:30", "'12'", "[1]", "(1)", "1.2.3", "--1", "1e", "e1", "_1", "1_",
+             "1__0", "1 000", "1e+", "0x", "in f", "1_e3", "1._5", "$12", "#12", "<5", ">5", "=5", "1=1", "- 1"],
+}
+LITERAL_BLANKS = [" ", "  ", "\t", "\n", "\r", "\r\n", "\xa0", "\u2003", "\u3000", " \n", "\n "]
+LITERAL_COMMANDS = ["\\pm", "\\infty", "\\alpha", "\\times", "\\mu", "\\cdot", "\\leq", "\\approx", "\\foo", "\\mathbb{R}"]
+LITERAL_DECOR = ["none", "sub", "sup", "group_", "group^", "lead-blank", "trail-blank", "lead-nl", "trail-nl", "inner-nl",
+                 "ge", "le", "cmd", "pagekw", "both-blank", "sub+nl"]
+
+
+def _digit_gaps(t):
+    return [i for i in range(1, len(t)) if t[i - 1].isdigit() and t[i].isdigit()]
+
+
+def literal_text(rng, family, decor):
+    """a text of the given literal-like family carrying the given decoration (a conversion token or blanks)"""
+    t = rng.choice(LITERAL_FAMILIES[family])
+    num = rng.choice(["0", "1", "2", "10", "-3", "0.5", "1e3", "n"])
+    if decor == "none":
+        return t
+    if decor == "sub":
+        return t + "_" + num
+    if decor == "sup":
+        return t + "^" + num
+    if decor in ("group_", "group^"):
+        ch = decor[-1]
+        gaps = _digit_gaps(t)
+        if gaps:
+            i = rng.choice(gaps)
+            return t[:i] + ch + t[i:]
+        return t + ch + rng.choice(["0", "1", "000", "2"])
+    if decor == "lead-blank":
+        return rng.choice(LITERAL_BLANKS) + t
+    if decor == "trail-blank":
+        return t + rng.choice(LITERAL_BLANKS)
+    if decor == "both-blank":
+        return rng.choice(LITERAL_BLANKS) + t + rng.choice(LITERAL_BLANKS)
+    if decor == "lead-nl":
+        return "\n" + t
+    if decor == "trail-nl":
+        return t + "\n"
+    if decor == "inner-nl":
+        i = rng.randrange(1, len(t)) if len(t) > 1 else 1
+        return t[:i] + "\n" + t[i:]
+    if decor == "sub+nl":
+        return t + "_" + num + "\n"
+    if decor == "ge":
+        return rng.choice([">=" + t, t + ">=" + num, ">= " + t])
+    if decor == "le":
+        return rng.choice(["<=" + t, t + "<=" + num, "<= " + t])
+    if decor == "cmd":
+        c = rng.choice(LITERAL_COMMANDS)
+        return rng.choice([c + " " + t, t + c + " " + num, t + " " + c, c + t if t[0].isdigit() or t[0] in "+-." else c + " " + t])
+    if decor == "pagekw":
+        k = rng.choice(["\\pagenumber", "\\totalpage", "\\pagefield"])
+        return rng.choice([t + "/" + k, k + " " + t, t + " " + k, k])
+    raise ValueError(decor)
+
+
+def literal_plan():
+    """every (family, decoration) pair, in a fixed order"""
+    return [(f, d) for f in LITERAL_FAMILIES for d in LITERAL_DECOR]
 
 
 def near_misses(rng, cmds, k):
@@ -278,6 +374,11 @@ def unit_cases(seed, tier, cmds):
             else:
                 parts.append(rng.choice(["{x}", "[1]", "a\\b", "\\", "{", "}", "\\ "]))
         cases.append(("mixed", " ".join(parts), True))
+    # (h) literal-like texts (numbers, digit groups, radix forms, inf/nan, booleans, …) x every decoration
+    for fam, dec in literal_plan():
+        for _ in range(3 if tier == "quick" else 12):
+            cases.append(("literal", literal_text(rng, fam, dec), True))
+        cases.append(("literal-off", literal_text(rng, fam, dec), False))
     # filter: the literal escape prefix and astral / surrogate characters stay outside (escaper's business)
     out = []
     seen = set()
@@ -498,6 +599,131 @@ def gen_doc(rng, tier):
     return dict(spec=spec, positions=positions, flags={k: v for k, v in flags.items()})
 
 
+def gen_literal_doc(rng, k):
+    """one-page table whose texts are literal-like (LITERAL_FAMILIES x LITERAL_DECOR, pair k of the plan) and carry NO
+    tag: in mode `same` one text stands in every position kind (title, subline, page header/footer, column header cell,
+    page_by group heading, body cell, footnote and source as table row or as paragraph), in mode `mixed` every position
+    draws its own.  Positions are identified by their ordinal place in the output (`layout`)."""
+    plan = literal_plan()
+    fam, dec = plan[k % len(plan)]
+    mode = "same" if rng.random() < 0.5 else "mixed"
+    base = literal_text(rng, fam, dec)
+
+    def text():
+        if mode == "same":
+            return base
+        if rng.random() < 0.65:
+            return literal_text(rng, fam, dec)
+        f2, d2 = rng.choice(plan)
+        return literal_text(rng, f2, d2)
+
+    def bools(n, p=0.6):
+        return [rng.random() < p for _ in range(n)]
+
+    ncols = rng.randint(1, 3)
+    nrows = rng.randint(1, 5)
+    grouped = rng.random() < 0.4
+    spec = dict(kind="table")
+    positions, flags, layout = [], {}, []
+
+    def lines_flag(nl):
+        r = rng.random()
+        if r < 0.25:
+            return None
+        if r < 0.55:
+            return rng.random() < 0.7
+        return bools(rng.choice([nl, nl, 1, nl + 1]))
+
+    # title-like components (one paragraph each, lines joined by a line break)
+    for kind, tagc in (("page_header", "P"), ("page_footer", "Q"), ("title", "T"), ("subline", "S")):
+        if rng.random() < 0.85:
+            nl = rng.choice([1, 1, 2])
+            texts = [text() for _ in range(nl)]
+            f = lines_flag(nl)
+            flags[kind] = f
+            spec[kind] = dict(text=texts, **({} if f is None else dict(text_convert=f)))
+            layout.append(f"{tagc}0")
+            for i in range(nl):
+                positions.append(dict(kind=kind, container=f"{tagc}0", line=i, row=i, col=0, text=texts[i]))
+    # column header: one row, one cell per displayed column
+    htexts = [text() for _ in range(ncols)]
+    r = rng.random()
+    fh = None if r < 0.25 else (rng.random() < 0.7) if r < 0.5 else bools(rng.choice([ncols, ncols, 1]))
+    flags["header"] = fh
+    spec["headers"] = [dict(text=htexts, **({} if fh is None else dict(text_convert=fh)))]
+    for j in range(ncols):
+        layout.append(f"H{j}")
+        positions.append(dict(kind="header", container=f"H{j}", line=0, row=0, col=j, text=htexts[j]))
+    # body (optionally with a page_by column whose values become spanning group headings)
+    off = 1 if grouped else 0
+    width = ncols + off
+    rows = [[text() for _ in range(ncols)] for _ in range(nrows)]
+    r = rng.random()
+    if r < 0.25:
+        fb = None
+    elif r < 0.45:
+        fb = rng.random() < 0.7
+    elif r < 0.65:
+        fb = bools(width)                                  # one value per column
+    elif r < 0.8 or grouped:
+        fb = [bools(width)]                                # one row
+    else:
+        fb = [bools(width) for _ in range(rng.choice([nrows, nrows, 2]))]
+    flags["body"] = fb
+    body_kw = {} if fb is None else dict(text_convert=fb)
+    if grouped:
+        # group keys: runs of equal values, distinct between runs (all equal when the draw repeats a value)
+        keys, run = [], None
+        for i in range(nrows):
+            if run is None or rng.random() < 0.4:
+                run = text()
+            keys.append(run)
+        seen, prev, ok = set(), object(), True
+        for v in keys:
+            if v != prev:
+                ok = ok and v not in seen
+                seen.add(v)
+                prev = v
+        if not ok or any(v.strip("-") == "" for v in keys):
+            keys = [base if base.strip("-") else "g" + base] * nrows
+        rows = [[keys[i]] + rows[i] for i in range(nrows)]
+        body_kw["page_by"] = ["g"]
+        spec["df"] = dict(cols=["g"] + [f"c{j}" for j in range(ncols)], rows=rows)
+    else:
+        spec["df"] = dict(cols=[f"c{j}" for j in range(ncols)], rows=rows)
+    spec["body"] = body_kw
+    ngroup = 0
+    for i in range(nrows):
+        if grouped and (i == 0 or rows[i][0] != rows[i - 1][0]):
+            tag = f"G{ngroup}"
+            ngroup += 1
+            layout.append(tag)
+            positions.append(dict(kind="body", role="group-heading", container=tag, line=0, row=0, col=0, text=rows[i][0]))
+        for j in range(ncols):
+            tag = f"B{i}x{j}"
+            layout.append(tag)
+            positions.append(dict(kind="body", container=tag, line=0, row=i, col=j + off, text=rows[i][j + off]))
+    # footnote / source: a one-cell table row (as_table=True) or a paragraph
+    for kind, tagc in (("footnote", "F"), ("source", "R")):
+        if rng.random() < 0.85:
+            t = text()
+            r = rng.random()
+            f = None if r < 0.35 else (rng.random() < 0.7)
+            flags[kind] = f
+            kw = dict(text=t, **({} if f is None else dict(text_convert=f)))
+            r = rng.random()
+            if r < 0.7:
+                kw["as_table"] = r < 0.35
+            spec[kind] = kw
+            layout.append(f"{tagc}0")
+            positions.append(dict(kind=kind, container=f"{tagc}0", line=0, row=0, col=0, text=t,
+                                  role=("as-table" if kw.get("as_table", kind == "footnote") else "as-paragraph")))
+    for p in positions:
+        p["want"] = documented_flag(p["kind"], flags.get(p["kind"]), p["row"], p["col"])
+    return dict(spec=spec, positions=positions, flags=flags, layout=layout,
+                literal=dict(family=fam, decor=dec, mode=mode, grouped=grouped))
+
+
 def _flagval_json(v):
     if isinstance(v, tuple):
         if all(isinstance(x, bool) for x in v):
@@ -604,8 +830,15 @@ def _find_container(containers, tag):
 def judge_doc(res, known, table, case, ob, drv_flags, drv_texts):
     """drv_flags[i], drv_texts[i] belong to case['positions'][i]"""
     cjson = dict(level="doc", spec=case["spec"], positions=case["positions"], flags=case["flags"])
+    layout = case.get("layout")
+    if layout is not None:
+        cjson["layout"] = layout
     if ob["status"] != "ok":
         res.fail(cjson, f"document in the property's domain failed: {ob}")
+        return
+    if layout is not None and len(ob["containers"]) != len(layout):
+        res.fail(cjson, f"the document has {len(layout)} text positions {layout}, the output shows {len(ob['containers'])} "
+                        f"paragraphs/cells: {[''.join(r[0] for r in c['runs']) for c in ob['containers']]}")
         return
     # group positions by container
     groups = {}
@@ -613,7 +846,7 @@ def judge_doc(res, known, table, case, ob, drv_flags, drv_texts):
         groups.setdefault(p["container"], []).append(i)
     for tag, idxs in groups.items():
         ps = [case["positions"][i] for i in idxs]
-        hits = _find_container(ob["containers"], tag)
+        hits = [ob["containers"][layout.index(tag)]] if layout is not None else _find_container(ob["containers"], tag)
         if len(hits) != 1:
             res.fail(cjson, f"text position {tag} found {len(hits)} times in the output")
             return
@@ -661,14 +894,22 @@ def judge_doc(res, known, table, case, ob, drv_flags, drv_texts):
                f"{[p['want'] for p in ps]}): read back {got}, the one-pass reading of {[p['text'] for p in ps]} is {want_nat}")
         if need and got == want_ref:
             why += f" [class {sorted(need)} — not listed in known_findings.json]"
+        if layout is not None:
+            # the same text in another position whose flag is on as well: what does it read there?
+            for tag2, idxs2 in groups.items():
+                ps2 = [case["positions"][i] for i in idxs2]
+                if tag2 != tag and [p["text"] for p in ps2] == [p["text"] for p in ps] and \
+                        [p["want"] for p in ps2] == [p["want"] for p in ps]:
+                    got2 = ob["containers"][layout.index(tag2)]
+                    if got2 != got:
+                        why += f"; the same text with the same flags in {ps2[0]['kind']} position {tag2} reads {got2}"
+                        break
         res.fail(cjson, why)
         return
 
 
-def run_docs(res, known, table, corpus_docs=()):
-    ndocs = 160 if res.tier == "quick" else 2200
-    cases = list(corpus_docs) + [gen_doc(sub_rng(res.seed, "c11doc", k), res.tier) for k in range(ndocs)]
-    obs = common.pool_map(_doc_worker, cases, chunksize=4)
+def _drive_docs(cases, obs):
+    """driver answers for the positions of every case: {case index: ([flag...], [text record...])}"""
     reqs = []
     index = []
     for ci, (c, o) in enumerate(zip(cases, obs)):
@@ -682,7 +923,7 @@ def run_docs(res, known, table, corpus_docs=()):
             reqs.append(rq)
             reqs.append(dict(op="c11_convert", t=cps(p["text"]), conv=bool(p["want"])))
             index.append((ci, pi))
-    outs = common.driver_batch(reqs)
+    outs = common.driver_batch(reqs) if reqs else []
     per_case = {}
     for k, (ci, pi) in enumerate(index):
         fl = outs[2 * k]["flag"]
@@ -693,6 +934,85 @@ def run_docs(res, known, table, corpus_docs=()):
         per_case.setdefault(ci, ([], []))
         per_case[ci][0].append(fl)
         per_case[ci][1].append(tx)
+    return per_case
+
+
+def _reduce_literal(case, drop=None, row=None):
+    """a smaller untagged document: without the optional component `drop`, or with body row `row` only"""
+    import copy
+    c = copy.deepcopy(case)
+    spec, flags = c["spec"], c["flags"]
+    if drop is not None:
+        if spec.get(drop) is None:
+            return None
+        spec.pop(drop)
+        flags.pop(drop, None)
+        positions = [p for p in c["positions"] if p["kind"] != drop]
+    else:
+        rows = spec["df"]["rows"]
+        if len(rows) < 2 or not 0 <= row < len(rows):
+            return None
+        spec["df"]["rows"] = [rows[row]]
+        grouped = "page_by" in (spec.get("body") or {})
+        off = 1 if grouped else 0
+        body = []
+        if grouped:
+            body.append(dict(kind="body", role="group-heading", container="G0", line=0, row=0, col=0, text=rows[row][0]))
+        for j in range(len(rows[row]) - off):
+            body.append(dict(kind="body", container=f"B0x{j}", line=0, row=0, col=j + off, text=rows[row][j + off]))
+        positions, done = [], False
+        for p in c["positions"]:
+            if p["kind"] == "body":
+                if not done:
+                    positions += body
+                    done = True
+            else:
+                positions.append(p)
+    for p in positions:
+        p["want"] = documented_flag(p["kind"], flags.get(p["kind"]), p["row"], p["col"])
+    layout = []
+    for p in positions:
+        if p["container"] not in layout:
+            layout.append(p["container"])
+    c.update(positions=positions, layout=layout)
+    return c
+
+
+def shrink_literal(known, table, case):
+    """greedy reduction of a failing untagged document (drop optional components, keep one body row);
+    returns (case, failures) of the smallest still-failing document, or None"""
+    def failing(c):
+        o = _doc_worker(c)
+        per = _drive_docs([c], [o])
+        tmp = common.Result("C11", "quick", 0)
+        judge_doc(tmp, known, table, c, o, *per.get(0, ([], [])))
+        return tmp.failures
+
+    cur, cur_f = case, None
+    for kind in ("page_header", "page_footer", "title", "subline", "footnote", "source"):
+        cand = _reduce_literal(cur, drop=kind)
+        if cand is not None:
+            f = failing(cand)
+            if f:
+                cur, cur_f = cand, f
+    for i in range(len(cur["spec"]["df"]["rows"])):
+        cand = _reduce_literal(cur, row=i)
+        if cand is not None:
+            f = failing(cand)
+            if f:
+                cur, cur_f = cand, f
+                break
+    return (cur, cur_f) if cur_f else None
+
+
+def run_docs(res, known, table, corpus_docs=()):
+    ndocs = 160 if res.tier == "quick" else 2200
+    nlit = 240 if res.tier == "quick" else 2400
+    cases = list(corpus_docs) + [gen_doc(sub_rng(res.seed, "c11doc", k), res.tier) for k in range(ndocs)]
+    cases += [gen_literal_doc(sub_rng(res.seed, "c11litdoc", k), k) for k in range(nlit)]
+    obs = common.pool_map(_doc_worker, cases, chunksize=4)
+    per_case = _drive_docs(cases, obs)
+    shrunk = []
     for ci, (c, o) in enumerate(zip(cases, obs)):
         fl, tx = per_case.get(ci, ([], []))
         nondefault = any(p["want"] != DOC_DEFAULT[p["kind"]] for p in c["positions"])
@@ -706,8 +1026,28 @@ def run_docs(res, known, table, corpus_docs=()):
             res.count(f"doc_flag:{k}:{shape}")
         for p in c["positions"]:
             res.count(f"doc_pos:{p['kind']}:{'on' if p['want'] else 'off'}")
+            if c.get("layout") is not None:
+                res.count(f"doc_literal_pos:{p['kind']}{':' + p['role'] if p.get('role') else ''}:{'on' if p['want'] else 'off'}")
+        if c.get("literal"):
+            lit = c["literal"]
+            res.count("doc_literal")
+            res.count(f"doc_literal:{lit['family']}:{lit['decor']}")
+            res.count(f"doc_literal_mode:{lit['mode']}{'+page_by' if lit['grouped'] else ''}")
         res.corr_checked += 1
+        nfail = len(res.failures)
         judge_doc(res, known, table, c, o, fl, tx)
+        if len(res.failures) > nfail and c.get("layout") is not None and not shrunk:
+            # the first failing untagged document is reported in its reduced form as well (listed first)
+            shrunk.append(True)
+            try:
+                small = shrink_literal(known, table, c)
+            except common.MachineryError:
+                raise
+            except Exception as e:  # noqa: BLE001
+                res.notes.append(f"shrinking failed: {type(e).__name__}: {e}")
+                small = None
+            if small is not None:
+                res.failures.insert(nfail, small[1][0])
 
 
 # ------------------------------------------------------------------ known findings
@@ -743,7 +1083,8 @@ def load_corpus():
             if c.get("level") == "unit":
                 units.append(dict(label=c.get("label", "corpus"), text=c.get("text") or from_cps(c["t"]), conv=c["conv"]))
             elif c.get("level") == "doc":
-                docs.append(dict(spec=c["spec"], positions=c["positions"], flags=c["flags"]))
+                docs.append(dict(spec=c["spec"], positions=c["positions"], flags=c["flags"],
+                                 **({"layout": c["layout"]} if c.get("layout") is not None else {})))
     return units, docs
 
 
@@ -767,7 +1108,8 @@ def run(res: common.Result, build) -> int:
         res, build, RULE, TRUSTED, ASSUME,
         explanation="C11_literal_passes_one_pass (all texts), C11_conversion_upto_D15 / C11_conversion_partial (all regular "
                     "texts, by induction), C11_supported_commands (every nameable row of the table), C11_conversion_off, "
-                    "C11_per_position, C11_defaults; ¬C11_full by the witnesses a>=b, \\mathbb{^}, \\alpha\\pagefield, "
+                    "C11_per_position, C11_position_independent, C11_backslash_free_regular / "
+                    "C11_conversion_backslash_free (number-like texts), C11_defaults; ¬C11_full by the witnesses a>=b, \\mathbb{^}, \\alpha\\pagefield, "
                     "\\alpha{\\pagefield. Table facts are decide +kernel obligations over the regenerated tables.",
         known_lines=klines)
 
@@ -831,27 +1173,11 @@ def replay(payload) -> int:
                 print("DISAGREE:", why)
             bad = bad or bool(tmp.disagreements)
     elif case.get("level") == "doc":
-        c = dict(spec=case["spec"], positions=case["positions"], flags=case["flags"])
+        c = dict(spec=case["spec"], positions=case["positions"], flags=case["flags"],
+                 **({"layout": case["layout"]} if case.get("layout") is not None else {}))
         saved_tier = tmp.tier
         o = _doc_worker(c)
-        reqs = []
-        for p in c["positions"]:
-            held = (o.get("held") or {}).get(p["kind"]) if o["status"] == "ok" else None
-            rq = dict(op="c11_flag", r=p["row"], c=p["col"])
-            if held is not None:
-                rq["val"] = held
-            else:
-                rq["comp"] = p["kind"]
-            reqs.append(rq)
-            reqs.append(dict(op="c11_convert", t=cps(p["text"]), conv=bool(p["want"])))
-        outs = common.driver_batch(reqs)
-        fl = [outs[2 * k]["flag"] for k in range(len(c["positions"]))]
-        tx = []
-        for k, p in enumerate(c["positions"]):
-            r = outs[2 * k + 1]
-            if not p["want"]:
-                r = dict(r, natural=cps(p["text"]), d15=cps(p["text"]), nocmp=True, irregular=[])
-            tx.append(r)
+        fl, tx = _drive_docs([c], [o]).get(0, ([], []))
         judge_doc(tmp, known, table, c, o, fl, tx)
         for _, why in tmp.failures:
             print("FAIL:", why)
